@@ -63,7 +63,8 @@ func (c16) Info() core.Info {
 		Title: "Tokens carry their true offset and text; spacing between tokens is irrelevant",
 		Level: "exploration",
 		Rule: "(1) ALL strings of length <= 6 (thorough: 7) over the symbol alphabet {a 1 space ' \" = ! < + & ( ,}, over {k . ` ^ ~ > - * | ) [ ;} and over {a space ' \" ` = ( , 1} (all three quote characters together) and over {a space TAB LF CR ' = 1 ,} (every kind of white space); (2) words of every length 1..40 in lower / UPPER / Mixed case and long numbers, alone and next to operators and brackets; (3) all sequences of <= 5 units over {a 1 = ' blank FF VT NBSP NEL EM-SPACE}; (4) all sequences of <= 4 (thorough: 5) tokens from a 24-token pool (keywords, word operators, names, numbers, quoted literals, every symbol class) rendered with every choice of 0/1/2 spaces between neighbours wherever the reference lexer says the space is optional. " +
-			"Oracle: an independent reference lexer written from the README token classes: same sequence of kinds and texts; every token's text is found at its reported offset (case-folded for words; quoted literals: the exact bytes between the quotes); two-character operators are one token; spacing variants give identical kind/text sequences. Non-trivial: >= 2 tokens. Distinct: the input string.",
+			"Oracle: an independent reference lexer written from the README token classes: same sequence of kinds and texts; every token's text is found at its reported offset (case-folded for words; quoted literals: the exact bytes between the quotes); two-character operators are one token; spacing variants give identical kind/text sequences. Non-trivial: >= 2 tokens. Distinct: the input string." +
+			" Inputs holding a lone ^ or ~ are judged on: each token's text at its offset, tokens following one another without overlap, words free of separator characters, no byte outside the tokens other than white space and the lone symbol.",
 		Assumptions: []string{
 			"white space is the space, tab, line feed and carriage return characters", "after an unterminated quote only the tokens before it are judged",
 			"a lone ^ or ~ is no token of the language (the engine drops it): such inputs are judged on the per-token offset/text invariant only",
